@@ -105,14 +105,19 @@ CHECKS["C19"] = dict(
          "(incl. the Go-side automaton), driver, hook H2b.",
 )
 CHECKS["C20"] = dict(
-    category="proof", design_ref="DESIGN.md §6 C20", engine="serve + cluster (one real node)",
-    technique="Lean 4 theorems on the connection-layer model (SELECT acceptance, per-connection selection, database isolation) + differential correspondence over several connections",
+    category="proof", design_ref="DESIGN.md §6 C20", engine="serve + config + cluster (one real node)",
+    technique="Lean 4 theorems on the connection-layer model (SELECT acceptance, per-connection selection, database isolation) and on the configuration layer (where the database count comes from) + differential correspondence over several connections and against the real config parser",
     text="Exec.select_accepts_exactly, select_reject_nochange, selection_is_per_connection, isolation, reply_independent_of_other_dbs are proved for the "
          "function the driver runs (Server.execOn), for every argument, database count and connection; interleavings are sequences of execOn steps. "
          "SELECT-heavy sessions over 1-4 connections and 1/2/16 databases against Manager.Handle are compared with the model (sweeps over every index and its neighbours, "
-         "first-SELECT races of parallel connections). Cluster mode: a one-node REAL cluster (cluster.json naming RaftAddr explicitly, 16 configured databases) must refuse SELECT of "
-         "another database or keep the selection the connection's own (cluster engine's select probe).",
-    note="Trusted: Lean kernel, harness, driver; strconv.Atoi mirrored by the model's integer parser. Cluster-mode SELECT goes through the replicated log and is not covered here.",
+         "first-SELECT races of parallel connections). "
+         "Configuration layer: Config.parse_databases_spec (last `databases` directive, else 16, never <= 0), cluster_single_database / "
+         "cluster_select_iff (ParseConfigJson always leaves one database: cluster-mode SELECT a is accepted iff a = 0), parse_total, parse_append are proved about "
+         "Config.parse / clusterPost / startup, which the driver runs against the real config.Parse / ParseConfigJson (engine config: worker process, log.Fatal observed as exit status 1). "
+         "Cluster mode on a REAL one-node cluster (cluster.json naming RaftAddr explicitly, 16 configured databases): SELECT of another database is refused or the selection stays the "
+         "connection's own (cluster engine's select probe).",
+    note="Trusted: Lean kernel, harness, driver; strconv.Atoi mirrored by the model's integer parsers; unicode.ToLower above ASCII, the IPv6 grammar and encoding/json enter the "
+         "configuration model as oracle facts / echo shipped by the harness.",
 )
 
 CHECKS["C05"] = dict(
